@@ -193,6 +193,7 @@ func (d *driver) writeEvidence(prop, tier string, master uint64, agg *WorkerSumm
 			"known_findings_reproduced": kn,
 			"spsa_build_workers":        d.spsaWorkers,
 			"determinism_precheck":      "first 5 seeds run twice in separate processes (GOMAXPROCS 1 and 16), history hashes equal",
+			"c14_lagging_gui_cases":     map[bool]string{false: "on", true: "left out: not reproducible with this tree"}[d.noLag],
 			"writer_mode":               map[bool]string{false: "gated (every Write parks until the scheduler grants it)", true: "non-blocking: the code under test holds a lock while writing, output back-pressure not simulated"}[d.noBlockWriter],
 			"race_leg_auxiliary":        d.raceStats,
 			"boundary_grid":             map[string]any{"slices_total": d.gridTotal, "slices_covered": len(d.gridSeen), "cases_per_slice": 30, "note": "C14 only: the dense boundary grid of the quantifier, walked slice by slice by leg c14-grid"},
